@@ -524,10 +524,16 @@ func total(parts []string) int64 {
 }
 
 func enumC07(tier string, shard, nshards int, visit func(any) bool) (string, bool) {
-	type scope struct{ maxLen, maxAmt int }
-	scopes := []scope{{3, 3}}
+	type scope struct {
+		maxLen, maxAmt int
+		senders, recvs []string
+	}
+	plainS, plainR := []string{"a", "b", "c"}, []string{"x", "y", "KEPT"}
+	// segmented names: "o"+":"+"h:f" and "o:h"+":"+"f" spell the same text, and "o" is on both sides
+	segS, segR := []string{"o", "o:h", "b"}, []string{"h:f", "f", "o", "KEPT"}
+	scopes := []scope{{3, 3, plainS, plainR}, {3, 2, segS, segR}}
 	if tier == "thorough" {
-		scopes = []scope{{3, 4}, {4, 2}}
+		scopes = []scope{{3, 4, plainS, plainR}, {4, 2, plainS, plainR}, {3, 3, segS, segR}, {4, 1, segS, segR}}
 	}
 	what := "direct Reconcile calls: "
 	idx := 0
@@ -535,13 +541,13 @@ func enumC07(tier string, shard, nshards int, visit func(any) bool) (string, boo
 		if si > 0 {
 			what += "; "
 		}
-		what += fmt.Sprintf("lists of length 1..%d, amounts 1..%d, equal totals", sc.maxLen, sc.maxAmt)
+		what += fmt.Sprintf("lists of length 1..%d, amounts 1..%d, equal totals, senders %v receivers %v", sc.maxLen, sc.maxAmt, sc.senders, sc.recvs)
 		byTotal := map[int64][][]string{}
-		enumParts([]string{"x", "y", "KEPT"}, sc.maxLen, sc.maxAmt, func(r []string) {
+		enumParts(sc.recvs, sc.maxLen, sc.maxAmt, func(r []string) {
 			byTotal[total(r)] = append(byTotal[total(r)], append([]string{}, r...))
 		})
 		ok := true
-		enumParts([]string{"a", "b", "c"}, sc.maxLen, sc.maxAmt, func(s []string) {
+		enumParts(sc.senders, sc.maxLen, sc.maxAmt, func(s []string) {
 			if !ok {
 				return
 			}
